@@ -301,3 +301,70 @@ def handmade_trees():
         out.append([['p', [t1], [leaf('q', t2), leaf('O', t2)]], ['r', [t1], []],
                     ['O', [], [leaf('s', t1), leaf('t', t2)]]])
     return out
+
+
+def block_sequences(variant='defaults_reuse'):
+    """several conditional_assignment blocks in a row (executable contract, all input valuations):
+    'defaults_reuse': ONE defaults dict object handed to two blocks - each block applies the declared defaults, and
+                      the caller's dict is unchanged afterwards;
+    'mem_two_blocks': one memory (two write ports) conditionally written in two separate blocks under independent
+                      predicates - accepted, and each port writes under its own predicate."""
+    import pyrtl
+    pyrtl.reset_working_block()
+    a, b = pyrtl.Input(1, 'a'), pyrtl.Input(1, 'b')
+    d = pyrtl.Input(3, 'd')
+    if variant == 'defaults_reuse':
+        x, y = pyrtl.WireVector(3, 'x'), pyrtl.WireVector(3, 'y')
+        r = pyrtl.Register(3, 'r', reset_value=2)
+        dflt = {x: 5, y: 6, r: 0}
+        snapshot = dict(dflt)
+        with pyrtl.conditional_assignment(defaults=dflt):
+            with a:
+                x |= d
+        with pyrtl.conditional_assignment(defaults=dflt):
+            with b:
+                y |= d
+                r.next |= d
+        if dflt != snapshot or len(dflt) != 3:
+            return dict(failed=True, observed="the caller's defaults dict was modified (%d entries left)" % len(dflt),
+                        expected='unchanged')
+        for nm, w in (('ox', x), ('oy', y), ('or_', r)):
+            o = pyrtl.Output(3, nm)
+            o <<= w
+        sim = pyrtl.Simulation()
+        rv = 2
+        for va, vb, vd in itertools.product([0, 1], [0, 1], [0, 3, 7]):
+            sim.step(dict(a=va, b=vb, d=vd))
+            exp = dict(ox=vd if va else 5, oy=vd if vb else 6, or_=rv)
+            got = {k: sim.inspect(k) for k in exp}
+            if got != exp:
+                return dict(failed=True, observed=dict(inputs=(va, vb, vd), **got), expected=exp)
+            rv = vd if vb else 0
+        return dict(failed=False, observed='ok', expected='ok')
+    m = pyrtl.MemBlock(3, 1, 'm', max_write_ports=2, asynchronous=True)
+    try:
+        with pyrtl.conditional_assignment:
+            with a:
+                m[0] |= d
+        with pyrtl.conditional_assignment:
+            with b:
+                m[1] |= ~d
+    except pyrtl.PyrtlError as e:
+        return dict(failed=True, observed='rejected: %s' % str(e)[:80], expected='accepted (separate blocks, separate ports)')
+    ra = pyrtl.Input(1, 'ra')
+    o = pyrtl.Output(3, 'o')
+    o <<= m[ra]
+    sim = pyrtl.Simulation()
+    model = {0: 0, 1: 0}
+    import random
+    rnd = random.Random(3)
+    for t in range(24):
+        va, vb, vd, vr = rnd.getrandbits(1), rnd.getrandbits(1), rnd.getrandbits(3), rnd.getrandbits(1)
+        sim.step(dict(a=va, b=vb, d=vd, ra=vr))
+        if sim.inspect('o') != model[vr]:
+            return dict(failed=True, observed=dict(cycle=t, o=sim.inspect('o')), expected=model[vr])
+        if va:
+            model[0] = vd
+        if vb:
+            model[1] = (~vd) & 7
+    return dict(failed=False, observed='ok', expected='ok')
